@@ -23,6 +23,14 @@
 //!                          an optional prefix → `read_xref_table_and_trailer(start, ..)` vs `Offsets.loadTable`
 //!                          instantiated with the table reader: merged table and the trailer returned
 //!   c02.walk.outside       broken chains: /Prev loops, /Prev to the wrong place, missing or huge /Size, …
+//!   c02.xrefstm.filtered   single cross-reference streams whose rows are PNG-predicted (predictor 10–15, a random filter
+//!                          type per row, /Columns = row width or another geometry with the same row size), zlib-compressed
+//!                          (flate2) and optionally wrapped in ASCIIHex / ASCII85, with the /Filter–/DecodeParms shapes writers
+//!                          use → `read_xref_table_and_trailer` vs `XrefSec.loadTableC` + `XrefFilters.decOf` (c02.walkf); the
+//!                          inflate results travel as the `ext` table of the request (third-party code)
+//!   c02.xrefstm.filtered.outside  the same damaged: wrong /Columns, predictor 2 / 16, bad row tags, raw deflate framing,
+//!                          unknown filter names, /DecodeParms of the wrong shape, truncated data
+//!   (`c02.file`: one half of the generated cross-reference streams are written filtered, see `finish_stream_filtered`)
 //! Oracle (implementation against the property itself):
 //!   c02.latest             same files: every object number resolves to the value written by the newest
 //!                          revision mentioning it / FreeObject / NullRef / Unspecified; trailer = newest
@@ -297,7 +305,10 @@ fn gen_file(rng: &mut Rng) -> GenFile {
         let slack = rng.below(3);
         let size = max_id + 1 + slack;
         marker += 1;
-        let xoff = w.finish(fmt, size, &format!("/VerifRev {} /Marker {}", rev, marker), &cuts, xref_id);
+        let extra = format!("/VerifRev {} /Marker {}", rev, marker);
+        let filtered = fmt == XrefFormat::Stream && rng.chance(1, 2);
+        let xoff = if filtered { finish_stream_filtered(&mut w, rng, size, &extra, &cuts, xref_id) } else { w.finish(fmt, size, &extra, &cuts, xref_id) };
+        if filtered { desc.push_str(" filtered"); }
         if fmt == XrefFormat::Stream {
             loc.insert(marker, format!("d.{}", xoff));
         }
@@ -1093,6 +1104,244 @@ fn walk_outside(driver: &Driver, seed: u64, n: u64) -> Stream {
     st
 }
 
+
+// ---------------------------------------------------------------------------------------------------
+// filtered cross-reference streams (twin of Spec/XrefFiltered.lean: rows → PNG prediction → zlib → ASCII)
+
+use crate::c05::codecs;
+
+#[derive(Clone, Debug)]
+struct FilteredRows {
+    /// `/Filter … /DecodeParms …` as dictionary text
+    dict: String,
+    /// the stream data as it stands in the file
+    data: Vec<u8>,
+    /// third-party results for the model: `z.<compressed>.<inflated>` / `z.<..>.!;r.<..>.<..>`
+    ext: Vec<String>,
+    desc: String,
+}
+
+/// how the damaged variants differ from a conforming encoding
+#[derive(Clone, Copy, PartialEq, Debug)]
+enum Damage { None, ColumnsOff, Predictor2, Predictor16, BadTag, RawDeflate, UnknownFilter, ParmsShape, Truncated, NoParms, ParmsNotPaired }
+
+/// encode complete rows of `stride` bytes the way writers of cross-reference streams do
+fn encode_rows_filtered(rng: &mut Rng, rows: &[u8], stride: usize, damage: Damage) -> FilteredRows {
+    // geometry with `stride` bytes per row
+    let mut g = match rng.below(6) {
+        0 => codecs::Geometry { colors: stride, bpc: 8, columns: 1 },
+        1 if stride % 2 == 0 => codecs::Geometry { colors: 1, bpc: 16, columns: stride / 2 },
+        2 if stride % 3 == 0 => codecs::Geometry { colors: 3, bpc: 8, columns: stride / 3 },
+        _ => codecs::Geometry { colors: 1, bpc: 8, columns: stride },
+    };
+    let use_predictor = damage != Damage::None || !rng.chance(1, 6);
+    let mut predictor: i64 = if use_predictor { 10 + rng.below(6) as i64 } else { 1 };
+    let mut pre = if use_predictor {
+        let types: Vec<u8> = (0..rows.len() / stride.max(1) + 1).map(|_| rng.below(5) as u8).collect();
+        codecs::png_predict(rows, g, |r| types[r])
+    } else {
+        rows.to_vec()
+    };
+    match damage {
+        Damage::BadTag if !pre.is_empty() => { let i = rng.usize(pre.len() / (stride + 1)) * (stride + 1); pre[i] = 5 + rng.below(250) as u8; }
+        Damage::ColumnsOff => { if rng.chance(1, 2) { g.columns += 1 } else if g.columns > 1 { g.columns -= 1 } else { g.columns = 0 } }
+        Damage::Predictor2 => predictor = 2,
+        Damage::Predictor16 => predictor = *rng.pick(&[16i64, 255, -1, 3, 9]),
+        _ => {}
+    }
+    let mut ext = vec![];
+    let mut compressed = if damage == Damage::RawDeflate {
+        let y = codecs::deflate_raw(&pre, 6);
+        ext.push(format!("z.{}.!", crate::driver::hex(&y)));
+        ext.push(format!("r.{}.{}", crate::driver::hex(&y), crate::driver::hex(&pre)));
+        y
+    } else {
+        let y = codecs::zlib_level(&pre, *rng.pick(&[0u32, 1, 6, 9]));
+        ext.push(format!("z.{}.{}", crate::driver::hex(&y), crate::driver::hex(&pre)));
+        y
+    };
+    if damage == Damage::Truncated && compressed.len() > 2 {
+        let n = 1 + rng.usize(compressed.len() - 1);
+        compressed.truncate(n);
+        let z = codecs::inflate_zlib_ref(&compressed);
+        let r = codecs::inflate_raw_ref(&compressed);
+        ext.push(format!("z.{}.{}", crate::driver::hex(&compressed), z.map(|b| crate::driver::hex(&b)).unwrap_or("!".into())));
+        ext.push(format!("r.{}.{}", crate::driver::hex(&compressed), r.map(|b| crate::driver::hex(&b)).unwrap_or("!".into())));
+    }
+    // parameter dictionary: defaults may be left out, entries in any order
+    let mut pe: Vec<String> = vec![];
+    if predictor != 1 || rng.chance(1, 3) { pe.push(format!("/Predictor {}", predictor)); }
+    if g.columns != 1 || rng.chance(1, 3) { pe.push(format!("/Columns {}", g.columns)); }
+    if g.colors != 1 || rng.chance(1, 3) { pe.push(format!("/Colors {}", g.colors)); }
+    if g.bpc != 8 || rng.chance(1, 3) { pe.push(format!("/BitsPerComponent {}", g.bpc)); }
+    rng.shuffle(&mut pe);
+    let parms = format!("<< {} >>", pe.join(" "));
+    let no_parms = pe.is_empty() || damage == Damage::NoParms;
+    let flate_name = if damage == Damage::UnknownFilter { *rng.pick(&["/Flate", "/flatedecode", "/Fl", "/DeflateDecode"]) } else { "/FlateDecode" };
+    let ascii = rng.below(4);
+    let (data, dict) = match ascii {
+        0 => {
+            let mut core = codecs::hex_encode(&compressed, codecs::HexCase::Mixed, false, rng);
+            if !core.ends_with(b">") { core.push(b'>'); }
+            let parms_txt = if no_parms { String::new() } else if damage == Damage::ParmsNotPaired { format!(" /DecodeParms {}", parms) } else if damage == Damage::ParmsShape { format!(" /DecodeParms [{} 7]", parms) } else { format!(" /DecodeParms [null {}]", parms) };
+            (core, format!("/Filter [/ASCIIHexDecode {}]{}", flate_name, parms_txt))
+        }
+        1 => {
+            let core = codecs::a85_encode(&compressed, rng.chance(1, 2));
+            let parms_txt = if no_parms { String::new() } else if damage == Damage::ParmsNotPaired { format!(" /DecodeParms [{}]", parms) } else if damage == Damage::ParmsShape { " /DecodeParms /x".to_string() } else { format!(" /DecodeParms [null {}]", parms) };
+            (core, format!("/Filter [/ASCII85Decode {}]{}", flate_name, parms_txt))
+        }
+        _ => {
+            let arr = rng.chance(1, 2);
+            let f = if arr { format!("/Filter [{}]", flate_name) } else { format!("/Filter {}", flate_name) };
+            let parms_txt = if no_parms { String::new() } else if damage == Damage::ParmsShape { format!(" /DecodeParms ({})", "x") } else if arr && rng.chance(1, 2) { format!(" /DecodeParms [{}]", parms) } else { format!(" /DecodeParms {}", parms) };
+            (compressed.clone(), format!("{}{}", f, parms_txt))
+        }
+    };
+    let desc = format!("predictor={} geometry={}x{}x{} ascii={} damage={:?}", predictor, g.colors, g.bpc, g.columns, ["hex", "a85", "none", "none"][ascii as usize], damage);
+    FilteredRows { dict, data, ext, desc }
+}
+
+fn xrefstm_filtered_file(size: u64, w: &[usize; 3], index: &[(u64, u64)], f: &FilteredRows) -> Vec<u8> {
+    let mut out = b"%PDF-1.7\n".to_vec();
+    let off = out.len();
+    let itxt: Vec<String> = index.iter().map(|(a, b)| format!("{} {}", a, b)).collect();
+    let dict = format!("/Type /XRef /Size {} /W [{} {} {}] /Index [{}] {}", size, w[0], w[1], w[2], itxt.join(" "), f.dict);
+    out.extend_from_slice(b"1 0 obj\n");
+    out.extend_from_slice(&stream_body(&dict, &f.data));
+    out.extend_from_slice(format!("\nendobj\nstartxref\n{}\n%%EOF\n", off).as_bytes());
+    out
+}
+
+/// `read_xref_table_and_trailer` through a `Storage` resolver (the stream data is read and decoded by the
+/// library): entries and the trailer dictionary
+fn real_walk_storage(bytes: &[u8], start: usize, tolerant: bool) -> String {
+    use pdf::backend::Backend;
+    catch_unwind(AssertUnwindSafe(|| {
+        let opts = if tolerant { ParseOptions::tolerant() } else { ParseOptions::strict() };
+        let data = bytes.to_vec();
+        let storage = match Storage::with_cache(data.clone(), opts, NoCache, NoCache, NoLog) { Ok(s) => s, Err(_) => return "err".to_string() };
+        let resolver = storage.resolver();
+        let res = TestResolve::new(&vec![], tolerant);
+        match data.read_xref_table_and_trailer(start, &resolver) {
+            Ok((t, trailer)) => format!("ok {} {}", (0..t.len()).map(|i| show_entry(&t.get(i as u64).unwrap())).collect::<Vec<_>>().join(","), show_val(&prim_to_val(&Primitive::Dictionary(trailer), &res))),
+            Err(_) => "err".to_string(),
+        }
+    }))
+    .unwrap_or_else(|_| "panic".into())
+}
+
+fn xrefstm_filtered(driver: &Driver, seed: u64, n: u64, outside: bool) -> (Stream, Oracle) {
+    let name = if outside { "c02.xrefstm.filtered.outside" } else { "c02.xrefstm.filtered" };
+    let mut st = Stream::new(name, !outside);
+    let mut or = Oracle::new("c02.xrefstm.filtered.readsback");
+    let mut reqs = vec![];
+    let mut imps = vec![];
+    for case in 0..n {
+        let mut rng = Rng::derive(seed, name, case);
+        let size = 1 + rng.below(14);
+        let allow = rng.chance(1, 3);
+        let nsub = 1 + rng.usize(3);
+        let mut subs: Vec<(u64, Vec<XRef>)> = vec![];
+        for _ in 0..nsub {
+            let first = rng.below(size + 2);
+            let len = rng.usize(6);
+            subs.push((first, (0..len).map(|_| rand_entry(&mut rng, false)).collect()));
+        }
+        let fields = |e: &XRef| match *e {
+            XRef::Free { next_obj_nr, gen_nr } => (0u64, next_obj_nr, gen_nr),
+            XRef::Raw { pos, gen_nr } => (1, pos as u64, gen_nr),
+            XRef::Stream { stream_id, index } => (2, stream_id, index as u64),
+            _ => unreachable!(),
+        };
+        let all_raw = subs.iter().all(|s| s.1.iter().all(|e| matches!(e, XRef::Raw { .. })));
+        let max1 = subs.iter().flat_map(|s| s.1.iter()).map(|e| fields(e).1).max().unwrap_or(0);
+        let max2 = subs.iter().flat_map(|s| s.1.iter()).map(|e| fields(e).2).max().unwrap_or(0);
+        let w0 = if all_raw && rng.chance(1, 3) { 0 } else { 1 + rng.usize(2) };
+        let w1 = (byte_width(max1) + rng.usize(3)).min(8);
+        let w2 = (byte_width(max2) + rng.usize(3)).min(8);
+        let stride = w0 + w1 + w2;
+        let mut rows = vec![];
+        for (_, es) in &subs {
+            for e in es {
+                let (t, a, b) = fields(e);
+                rows.extend_from_slice(&be(t, w0));
+                rows.extend_from_slice(&be(a, w1));
+                rows.extend_from_slice(&be(b, w2));
+            }
+        }
+        let damage = if outside {
+            *rng.pick(&[Damage::ColumnsOff, Damage::Predictor2, Damage::Predictor16, Damage::BadTag, Damage::RawDeflate, Damage::UnknownFilter, Damage::ParmsShape, Damage::Truncated, Damage::NoParms, Damage::ParmsNotPaired])
+        } else { Damage::None };
+        let f = encode_rows_filtered(&mut rng, &rows, stride, damage);
+        for k in f.desc.split(' ') { if !k.starts_with("geometry") { st.count(k); } }
+        st.count(&format!("rows={}", if rows.len() / stride > 9 { "10+".to_string() } else { (rows.len() / stride).to_string() }));
+        let index: Vec<(u64, u64)> = subs.iter().map(|s| (s.0, s.1.len() as u64)).collect();
+        let bytes = xrefstm_filtered_file(size, &[w0, w1, w2], &index, &f);
+        let imp = real_walk_storage(&bytes, 0, allow);
+        reqs.push(format!("c02.walkf {} {} 0 {}", allow as u8, crate::driver::hex(&bytes), if f.ext.is_empty() { "-".to_string() } else { f.ext.join(";") }));
+        if !outside {
+            // oracle: the table is the merge of the sections written (independent of the filter model)
+            let secs: Vec<Sub> = subs.iter().map(|(a, es)| (*a as u32, es.clone())).collect();
+            let expect = real_merge(size, &[secs]);
+            let got = imp.split(' ').take(2).collect::<Vec<_>>().join(" ");
+            or.case(&reqs[reqs.len() - 1], !rows.is_empty(), || json!({"desc": f.desc}));
+            if got != expect {
+                or.fail("filtered-xref-stream-misread", &format!("a conforming filtered cross-reference stream ({}) gives {} instead of {}", f.desc, trunc(&got), trunc(&expect)),
+                    json!({"stream": name, "seed": seed, "case": case, "file_hex": crate::driver::hex(&bytes), "desc": f.desc}));
+            }
+        }
+        imps.push(imp);
+    }
+    for ((rq, m), i) in reqs.iter().zip(driver.ask(&reqs).iter()).zip(imps.iter()) {
+        st.count(&format!("outcome={}", m.split(' ').next().unwrap_or("")));
+        st.case(rq, &canon_answer(m, 2), &canon_answer(i, 2), true);
+    }
+    (st, or)
+}
+
+/// `PdfWriter::finish(XrefFormat::Stream, …)` with the rows PNG-predicted, compressed and optionally ASCII-wrapped
+/// (the bookkeeping of `finish` — the stream lists itself, subsections cut at `cuts` — is repeated here because
+/// pdfwrite.rs is a shared file)
+fn finish_stream_filtered(w: &mut PdfWriter, rng: &mut Rng, size: u64, trailer_extra: &str, cuts: &[usize], xref_id: u64) -> u64 {
+    let prev = w.revisions.last().map(|r| r.xref_off);
+    let prev_txt = prev.map(|p| format!(" /Prev {}", p)).unwrap_or_default();
+    let xref_off = w.rel();
+    w.cur.push((xref_id, Entry::InUse { off: xref_off, gen: 0 }));
+    let mut es: Vec<(u64, Entry)> = w.cur.clone();
+    es.sort_by_key(|e| e.0);
+    es.dedup_by_key(|e| e.0);
+    let mut subs: Vec<(u64, Vec<Entry>)> = vec![];
+    for (k, (id, e)) in es.into_iter().enumerate() {
+        let start_new = match subs.last() { Some((first, v)) => first + v.len() as u64 != id || cuts.contains(&k), None => true };
+        if start_new { subs.push((id, vec![e])); } else { subs.last_mut().unwrap().1.push(e); }
+    }
+    let f = |e: &Entry| match e { Entry::Free { next, gen } => (0u8, *next, *gen), Entry::InUse { off, gen } => (1, *off, *gen), Entry::Compressed { stm, idx } => (2, *stm, *idx) };
+    let w1 = byte_width(subs.iter().flat_map(|s| s.1.iter()).map(|e| f(e).1).max().unwrap_or(0));
+    let w2 = byte_width(subs.iter().flat_map(|s| s.1.iter()).map(|e| f(e).2).max().unwrap_or(0));
+    let mut rows = Vec::new();
+    let mut index = String::new();
+    for (first, es) in &subs {
+        index.push_str(&format!("{} {} ", first, es.len()));
+        for e in es {
+            let (t, a, b) = f(e);
+            rows.push(t);
+            rows.extend_from_slice(&a.to_be_bytes()[8 - w1..]);
+            rows.extend_from_slice(&b.to_be_bytes()[8 - w2..]);
+        }
+    }
+    let enc = encode_rows_filtered(rng, &rows, 1 + w1 + w2, Damage::None);
+    let dict = format!("/Type /XRef /Size {}{} /W [1 {} {}] /Index [{}] {} {}", size, prev_txt, w1, w2, index.trim_end(), enc.dict, trailer_extra);
+    let body = stream_body(&dict, &enc.data);
+    w.out.extend_from_slice(format!("{} 0 obj\n", xref_id).as_bytes());
+    w.out.extend_from_slice(&body);
+    w.out.extend_from_slice(b"\nendobj\n");
+    w.out.extend_from_slice(format!("startxref\n{}\n%%EOF\n", xref_off).as_bytes());
+    let entries = std::mem::take(&mut w.cur);
+    w.revisions.push(Revision { entries, xref_off, format: XrefFormat::Stream, subsections: subs, size });
+    xref_off
+}
+
 fn parse_entry(t: &str) -> Option<XRef> {
     let f: Vec<&str> = t.split('.').collect();
     match f.as_slice() {
@@ -1144,6 +1393,7 @@ fn replay_request(rq: &str) -> String {
         }
         ["c02.table", hx] => real_table(&crate::driver::unhex(hx).unwrap_or_default()),
         ["c02.tableat", hx, pos] => real_table_at(&crate::driver::unhex(hx).unwrap_or_default(), pos.parse().unwrap_or(0)),
+        ["c02.walkf", allow, hx, start, _ext] => real_walk_storage(&crate::driver::unhex(hx).unwrap_or_default(), start.parse().unwrap_or(0), *allow == "1"),
         ["c02.walk", hx, start] => real_walk(&crate::driver::unhex(hx).unwrap_or_default(), start.parse().unwrap_or(0)).0,
         ["c02.tablewrite", sec, trailer, tape, tail] => {
             let subs: Vec<Sub> = if *sec == "-" { vec![] } else {
@@ -1170,7 +1420,7 @@ pub fn run(driver: &Driver, seed: u64, thorough: bool, replay: Option<&serde_jso
             let imp = replay_request(rq);
             let m = driver.ask(&[rq.to_string()]).remove(0);
             let m = if rq.starts_with("c02.merge") { model_entries(&m) } else { m };
-            let (m, imp) = if rq.starts_with("c02.table ") || rq.starts_with("c02.tableat ") || rq.starts_with("c02.walk ") { (canon_answer(&m, 2), canon_answer(&imp, 2)) } else { (m, imp) };
+            let (m, imp) = if rq.starts_with("c02.table ") || rq.starts_with("c02.tableat ") || rq.starts_with("c02.walk ") || rq.starts_with("c02.walkf ") { (canon_answer(&m, 2), canon_answer(&imp, 2)) } else { (m, imp) };
             st.case(rq, &m, &imp, true);
             rep.streams.push(st);
             return rep;
@@ -1216,5 +1466,9 @@ pub fn run(driver: &Driver, seed: u64, thorough: bool, replay: Option<&serde_jso
     rep.streams.push(st);
     rep.oracles.push(or);
     rep.streams.push(walk_outside(driver, seed, if thorough { 50_000 } else { 1500 }));
+    let (st, or) = xrefstm_filtered(driver, seed, if thorough { 40_000 } else { 1500 }, false);
+    rep.streams.push(st);
+    rep.oracles.push(or);
+    rep.streams.push(xrefstm_filtered(driver, seed, if thorough { 40_000 } else { 1500 }, true).0);
     rep
 }
